@@ -298,6 +298,8 @@ def _surrogates(model: Model, rep: Report) -> None:
                         cmps.append((v.left, v.ops[0], v.comparators[0]))
             for a, op, b in cmps:
                 def cv(x):
+                    if isinstance(x, ast.Name) and x.id in f.module.assigns:
+                        x = f.module.assigns[x.id]  # a named module constant
                     return x.value if isinstance(x, ast.Constant) and isinstance(x.value, int) else None
                 if isinstance(b, ast.Name) and b.id == p and cv(a) is not None:  # const OP d
                     if isinstance(op, ast.Lt):
